@@ -310,7 +310,7 @@ func genC14(r *Rand, n int, tier string, emit func(string)) {
 	}
 	all := []string{}
 	for i := range protos {
-		if protos[i].Name == "leiosvotes" {
+		if protos[i].Name == "leiosvotes" || strings.HasSuffix(protos[i].Name, "-v20") {
 			continue
 		}
 		for _, role := range []protocol.ProtocolRole{protocol.ProtocolRoleClient, protocol.ProtocolRoleServer} {
@@ -340,6 +340,16 @@ func genC14(r *Rand, n int, tier string, emit func(string)) {
 			}
 			if reenter != nil {
 				cands = append(cands, reenter)
+			}
+			// a state entered again through a self-loop (block-fetch Streaming --Block--> Streaming):
+			// the timer must be re-armed by that transition although the state does not change
+			for _, s := range order {
+				for _, t := range m.Trans {
+					if t[0] == s && t[2] == s {
+						cands = append(cands, append(append([]int{}, paths[s]...), int(t[1])))
+						break
+					}
+				}
 			}
 			for _, path := range cands {
 				// the state reached and a permitted continuation
